@@ -250,3 +250,49 @@ def eval_zlists(imports, exprs, name, shard=2, timeout=240):
     for o in outs:
         res.append([int(m, 16) for m in HEXRE.findall(o)])
     return res
+
+
+def _content_key(path, deps):
+    """Key of a compiled file = hash of its source, of every dependency source, and the Coq version."""
+    import hashlib
+    h = hashlib.sha256()
+    h.update(_coq_version().encode())
+    for d in list(deps) + [path]:
+        d = Path(d)
+        h.update(str(d.name).encode())
+        h.update(d.read_bytes())
+    return h.hexdigest()
+
+
+_COQV = None
+
+
+def _coq_version():
+    global _COQV
+    if _COQV is None:
+        _COQV = subprocess.run(["coqc", "--version"], capture_output=True, text=True).stdout
+    return _COQV
+
+
+def base_sources():
+    return sorted((COQ / "Base").glob("*.v"))
+
+
+def coqc_cached(path, deps, timeout=900):
+    """Compile unless a .vo exists that was produced from byte-identical inputs (source, all
+    dependency sources, Coq version).  Returns the coqc record with key `reused`."""
+    path = Path(path)
+    key = _content_key(path, list(base_sources()) + [Path(d) for d in deps])
+    keyf = Path(str(path)[:-2] + ".vo.key")
+    outf = Path(str(path)[:-2] + ".vo.out")
+    if vo_path(path).exists() and keyf.exists() and keyf.read_text() == key:
+        return {"ok": True, "out": outf.read_text() if outf.exists() else "", "secs": 0.0,
+                "failed_lemma": None, "file": str(path), "reused": True}
+    if keyf.exists():
+        keyf.unlink()
+    r = coqc(path, timeout=timeout)
+    r["reused"] = False
+    if r["ok"]:
+        outf.write_text(r["out"])
+        keyf.write_text(key)
+    return r
